@@ -29,6 +29,9 @@ func scenarioC05(rc *RunCtx) {
 	pf.FatalPct = 80
 	pf.FailCondEasy = t.Chance("pf.easy", 60) // overlapping conditions: candidates can slip from one site to another
 	prog := GenProg(t, pf)
+	if t.Chance("c05.template", 35) {
+		prog = c05Template(t)
+	}
 	fl := genFlags(t, 30)
 	fl.NoFailFile = true
 	fl.ShrinkTime = []time.Duration{time.Hour, 30 * time.Second, time.Second, 50 * time.Millisecond}[t.Weighted("c05.shrinktime", 4, 2, 2, 1)]
@@ -174,4 +177,32 @@ func judgeC05Prefix(rc *RunCtx, frozen, cut *CheckRun) {
 	if ref != nil && DrawLogPruned(F) != DrawLogPruned(ref) {
 		rc.V(viol("C05.R4", "result-not-last-accepted", "the limited run presents {%s} but its last accepted step drew {%s}", drawsStr(F.Draws), drawsStr(ref.Draws)))
 	}
+}
+
+// c05Template: the shape of a typical property test - collections of filtered elements with thresholds on their sum and
+// length at distinct failure sites - which gives the minimizer long trajectories full of rejected attempts.
+func c05Template(t *Tape) *Prog {
+	p := &Prog{NVars: 3, NSites: 3}
+	filt := []string{"filter_even", "filter_rare"}[t.Pick("tmpl.filter", 2)]
+	elem := &GenSpec{K: filt, Sub: &GenSpec{K: "intrange", A: 0, B: []int{100, 1000, 5000}[t.Pick("tmpl.range", 3)]}}
+	xs := &GenSpec{K: "slicen", A: 0, B: t.Int("tmpl.maxlen", 4, 12), Sub: elem}
+	if t.Chance("tmpl.unbounded", 30) {
+		xs = &GenSpec{K: "sliceof", Sub: elem}
+	}
+	p.Body = append(p.Body, &Stmt{K: SDraw, Var: 0, Gen: xs, Label: "xs"})
+	if t.Chance("tmpl.second", 60) {
+		second := []*GenSpec{{K: "distinct", A: t.Int("tmpl.dom", 1, 6)}, {K: "mapbool", Sub: &GenSpec{K: "uint8"}}, {K: "stringn", A: t.Int("tmpl.strmax", 0, 8)}}[t.Pick("tmpl.secondkind", 3)]
+		p.Body = append(p.Body, &Stmt{K: SDraw, Var: 1, Gen: second, Label: ""})
+	}
+	sumT := int64([]int{50, 200, 500, 1500, 4000}[t.Pick("tmpl.sum", 5)])
+	lenT := int64(t.Int("tmpl.len", 2, 7))
+	kinds := []FailKind{FKFatalf, FKFatal, FKPanicStr, FKIndex, FKFailNow}
+	p.Body = append(p.Body,
+		&Stmt{K: SIf, Cond: &Cond{Var: 0, F: 1, Op: OpGE, C: sumT}, Body: []*Stmt{{K: SFail, FKind: kinds[t.Pick("tmpl.k1", len(kinds))], Site: 0}}},
+		&Stmt{K: SIf, Cond: &Cond{Var: 0, F: 0, Op: OpGE, C: lenT}, Body: []*Stmt{{K: SFail, FKind: kinds[t.Pick("tmpl.k2", len(kinds))], Site: 1}}},
+	)
+	if t.Chance("tmpl.nonfatal", 40) {
+		p.Body = append(p.Body, &Stmt{K: SIf, Cond: &Cond{Var: 1, F: 0, Op: OpGE, C: 2}, Body: []*Stmt{{K: SFail, FKind: FKErrorf, Site: 2}}})
+	}
+	return p
 }
